@@ -214,7 +214,9 @@ fn err_kind(e: &NumbatError) -> String {
     match e {
         NumbatError::ResolverError(_) => "E:resolve".into(),
         NumbatError::NameResolutionError(_) => "E:name".into(),
-        NumbatError::TypeCheckError(_) => "E:type".into(),
+        NumbatError::TypeCheckError(t) => {
+            format!("E:type {}", t.to_string().replace(['\n', '\t'], " "))
+        }
         NumbatError::RuntimeError(r) => match &r.kind {
             RuntimeErrorKind::DivisionByZero => "E:divzero".into(),
             RuntimeErrorKind::QuantityError(hk::QuantityError::IncompatibleUnits(..)) => {
